@@ -1208,7 +1208,7 @@ func (e *exec) epilogue() {
 		if e.isTerminated() {
 			return
 		}
-		if !held && e.s.EpiHold > 0 && e.s.Ver == 2 && e.liveLen() > 0 {
+		if !held && e.s.EpiHold > 0 && e.liveLen() > 0 {
 			held = true
 			e.hold(e.s.EpiHold)
 			e.drain()
